@@ -173,6 +173,16 @@ GuardSignalPick(S, g, x) ==
            S2 == Emit(S1, [e |-> "GuardGrant", g |-> g, p |-> x.p, all |-> 0, t |-> S.k.now])
        IN Sched(S2, "resource", S.k.now, S.k.prio[x.p], x.p, SUCCESS)
 (* deterministic representative: lowest pid among the tied first waiters (the tie is explored via pids' roles) *)
+(* the harness logs the truth of the predicate of every process that is inside a condition wait *)
+RECURSIVE TruthsOf(_, _, _)
+TruthsOf(S, ps, released) ==
+  IF ps = {} THEN S
+  ELSE LET p == CHOOSE x \in ps : \A y \in ps : x <= y
+           pred == S.k.call[p].a[1]
+           v == PredVal(S.k, pred) \/ (pred = 2 /\ released = 1)
+       IN TruthsOf(Emit(S, [e |-> "Truth", p |-> p, pred |-> pred, v |-> v]), ps \ {p}, released)
+Truths(S, released) == TruthsOf(S, {p \in PIDs : S.k.call[p].op = "cwait"}, released)
+
 (* cmb_condition_signal: evaluate every waiter, resume those whose predicate holds *)
 RECURSIVE CondEval(_, _)
 CondEval(S, ws) ==
@@ -486,7 +496,9 @@ Exec1(S, p, in) ==
          IN Snap(Emit(S1, DoEv(p, in, 0, 0, t)))
     [] op = "start" -> Snap(Emit(Sched(S, "start", t, kk.prio[a1], a1, 0), DoEv(p, in, 0, 0, t)))
     [] op = "rel" ->
-         LET S1 == GuardSignal(Rec(SetK(S, [kk EXCEPT !.holder[a1] = 0]), a1), a1) IN Snap(Emit(S1, DoEv(p, in, 0, 0, t)))
+         LET Sf == IF kk.csub # {} THEN Truths(Emit(S, [e |-> "FwdBegin", p |-> p, g |-> a1, t |-> t]), a1) ELSE S
+             S1 == GuardSignal(Rec(SetK(Sf, [kk EXCEPT !.holder[a1] = 0]), a1), a1)
+         IN Snap(Emit(S1, DoEv(p, in, 0, 0, t)))
     [] op = "prel" ->
          LET S1 == GuardSignal(Rec(SetK(S, [kk EXCEPT !.pheld[p] = @ - a1, !.pinuse = @ - a1]), GPOOL), GPOOL) IN
          Snap(Emit(S1, DoEv(p, in, S1.k.pheld[p], 0, t)))
@@ -505,7 +517,7 @@ Exec1(S, p, in) ==
          LET h == kk.pqall[a1] IN
          Snap(Emit(SetK(S, [kk EXCEPT !.pqs = {IF x.h = h THEN [x EXCEPT !.pr = a2] ELSE x : x \in @}]), DoEv(p, in, 0, h, t)))
     [] op = "csig" ->
-         LET S1 == CondSignal(Emit(S, [e |-> "CSigBegin", p |-> p, t |-> t])) IN
+         LET S1 == CondSignal(Truths(Emit(S, [e |-> "CSigBegin", p |-> p, t |-> t]), 0)) IN
          Snap(Emit(S1, DoEv(p, in, IF S1.k.gq[GCOND] # kk.gq[GCOND] THEN 1 ELSE 0, 0, t)))
     [] op = "setflag" -> Snap(Emit(SetK(S, [kk EXCEPT !.flag[a1 + 1] = a2]), DoEv(p, in, 0, 0, t)))
     [] op = "csub" -> Snap(Emit(SetK(S, [kk EXCEPT !.csub = @ \cup {IF a1 = 0 THEN 1 ELSE GBUFF}]), DoEv(p, in, 0, 0, t)))
